@@ -426,7 +426,7 @@ def gen_c14(rng, cid, npool=6, nops=14):
     state = {i: p for i, p in enumerate(pool)}
     exp = []  # expected observations
     for _ in range(nops):
-        op = rng.choice(['XCOPY', 'XMOVE', 'XASG', 'XMASG', 'XEQ', 'XEQ', 'XMUTCOPY', 'XSELF', 'XTYPE', 'XETH', 'XRAWHDR'])
+        op = rng.choice(['XCOPY', 'XMOVE', 'XASG', 'XMASG', 'XEQ', 'XEQ', 'XMUTCOPY', 'XSELF', 'XTYPE', 'XETH', 'XRAWHDR', 'XCMPEDIT'])
         a, b = rng.below(npool), rng.below(npool)
         if op == 'XEQ':
             lines.append('XEQ %d %d' % (a, b)); lines.append('XEQ %d %d' % (b, a)); lines.append('XEQ %d %d' % (a, a))
@@ -470,6 +470,29 @@ def gen_c14(rng, cid, npool=6, nops=14):
             lines += ['XTYPE %d %d %d %d' % (a, mt, raw, rng.below(2)), 'XSHOW %d' % a]
             q = dict(state[a]); q['mt'] = mt; q['pt'] = raw
             state[a] = q; exp.append(('show', q))
+        elif op == 'XCMPEDIT':
+            # compare - edit a header field in place through the typed setter - compare again - undo the edit - compare again, on a long
+            # payload and on copies of it: what == answers must follow the current bytes, never an earlier comparison
+            if a == b:
+                continue
+            n = rng.choice([6, 63, 64, 65, 200, 1000])
+            base = dict(ver=1, mt=1, pt=8, ts=rng.next(), ifid=rng.below(1 << 32), vendor=0, flags=0, dev=rng.below(65536), stream=rng.below(256), seq=0, segtype=0,
+                        payload=be(rng.below(65536), 2) + bytes(2) + be(n - 6, 2) + rng.bytes(n - 6))
+            lines.append(pk_line(50, base)); lines.append('XCOPY %d 50' % a); lines.append('XCOPY %d 50' % b)
+            state[a] = base; state[b] = base
+            f0 = int.from_bytes(base['payload'][:2], 'big'); f1 = f0 ^ (1 << rng.below(16))
+            def eq3():
+                lines.append('XEQ %d %d' % (a, b)); lines.append('XEQ %d %d' % (b, a)); lines.append('XEQ %d %d' % (a, a))
+                exp.append(('eq', state[a], state[b]))
+            if rng.chance(1, 2):
+                eq3()
+            q = dict(base); q['payload'] = be(f1, 2) + base['payload'][2:]
+            lines.append('XFLAGS %d %d' % (b, f1)); state[b] = q
+            eq3()
+            lines.append('XFLAGS %d %d' % (b, f0)); state[b] = base
+            eq3()
+            lines += ['XCOPY %d %d' % (a, b), 'XSHOW %d' % a]; state[a] = state[b]; exp.append(('show', state[a]))
+            eq3()
         elif op == 'XMUTCOPY':
             # a copy shares no state with its original: mutate the copy, re-read the original
             if state[b] is None or a == b:
